@@ -71,7 +71,7 @@ Proof.
   - split; [tauto|lia].
   - rewrite IH. split; [intros [<-|H]|intros H]; lia.
 Qed.
-Lemma in_upto n x : In x (upto n) <-> (1 <= x <= n)%N.
+Lemma In_upto_iff n x : In x (upto n) <-> (1 <= x <= n)%N.
 Proof. unfold upto. rewrite in_nseq. lia. Qed.
 
 Lemma has_get_row (f : addr -> role -> option Z) accounts r0 a r rest :
@@ -94,6 +94,95 @@ Proof.
     destruct (N.eqb r r0); reflexivity.
 Qed.
 
+(* ---------------- role enumerations: what grant / revoke do to the member list ---------------- *)
+Lemma held_index_of x l : forall k, match index_of x l k with Some _ => true | None => false end = existsb (N.eqb x) l.
+Proof. induction l as [|y l IH]; intros k; cbn [index_of existsb]; [reflexivity|]. destruct (N.eqb x y); [reflexivity|apply IH]. Qed.
+Lemma holds_mem a x r : holds a x r = existsb (N.eqb x) (mem_list a r).
+Proof. unfold holds, has_role. apply held_index_of. Qed.
+Lemma existsb_app_single l a x : existsb (N.eqb x) (l ++ [a]) = existsb (N.eqb x) l || N.eqb x a.
+Proof. rewrite existsb_app. cbn. rewrite orb_false_r. reflexivity. Qed.
+
+Lemma index_of_spec x l : forall k j, index_of x l k = Some j ->
+  k <= j < k + Z.of_nat (length l) /\ nth (Z.to_nat (j - k)) l 0%N = x.
+Proof.
+  induction l as [|y l IH]; intros k j H; cbn [index_of] in H; [discriminate|].
+  destruct (N.eqb x y) eqn:E.
+  - inversion H; subst. apply N.eqb_eq in E. subst. cbn [length]. rewrite Z.sub_diag. cbn. split; [lia|reflexivity].
+  - destruct (IH _ _ H) as [Hr Hn]. cbn [length]. split; [lia|].
+    replace (Z.to_nat (j - k)) with (S (Z.to_nat (j - (k + 1)))) by lia. exact Hn.
+Qed.
+
+Lemma set_nth_length i v m : length (set_nth i v m) = length m.
+Proof. revert i. induction m as [|y m IH]; intros [|i]; cbn; auto. Qed.
+Lemma set_nth_mem x y v : forall m i, (i < length m)%nat -> nth i m 0%N = x -> y <> x ->
+  existsb (N.eqb y) (set_nth i v m) = existsb (N.eqb y) m || N.eqb y v.
+Proof.
+  induction m as [|z m IH]; intros i Hi Hn Hy; cbn [length] in Hi; [lia|].
+  destruct i as [|i]; cbn [set_nth nth existsb] in *.
+  - subst z. replace (N.eqb y x) with false by (symmetry; apply N.eqb_neq; exact Hy). cbn [orb]. apply orb_comm.
+  - rewrite (IH i) by (auto; lia). rewrite orb_assoc. reflexivity.
+Qed.
+
+Lemma grant_no_auth_members mr a x r a' :
+  grant_no_auth mr a x r = Ok a' ->
+  (holds a x r = true /\ a' = a) \/
+  (holds a x r = false /\ mem_list a' r = mem_list a r ++ [x] /\ (existing a' = existing a \/ existing a' = existing a ++ [r])).
+Proof.
+  unfold grant_no_auth. destruct (holds a x r) eqn:Eh.
+  - intros H. inversion H. left. auto.
+  - right. split; [reflexivity|]. destruct (mem_list a r) as [|y l] eqn:El.
+    + destruct (Z.of_nat (length (existing a)) =? mr); cbn [bind] in H; [discriminate|].
+      inversion H; subst. rewrite mem_list_set_members_eq. cbn [set_members existing]. auto.
+    + cbn [bind] in H. inversion H; subst. rewrite mem_list_set_members_eq. cbn [set_members existing]. auto.
+Qed.
+
+Lemma remove_first_mem r y : forall l, y <> r -> existsb (N.eqb y) (remove_first r l) = existsb (N.eqb y) l.
+Proof.
+  induction l as [|z l IH]; intros Hy; cbn [remove_first existsb]; [reflexivity|].
+  destruct (N.eqb r z) eqn:E.
+  - apply N.eqb_eq in E. subst z. replace (N.eqb y r) with false by (symmetry; apply N.eqb_neq; exact Hy). reflexivity.
+  - cbn [existsb]. rewrite IH by exact Hy. reflexivity.
+Qed.
+
+Lemma swap_remove_spec (l : list addr) (x : addr) (idx : nat) :
+  (idx < length l)%nat -> nth idx l 0%N = x ->
+  let l' := if (Z.of_nat idx =? Z.of_nat (length l) - 1) then removelast l else set_nth idx (last l 0%N) (removelast l) in
+  (forall y, y <> x -> existsb (N.eqb y) l' = existsb (N.eqb y) l) /\
+  Z.of_nat (length l') = Z.of_nat (length l) - 1.
+Proof.
+  intros Hi Hn. assert (Hne : l <> []) by (destruct l; [cbn in Hi; lia|discriminate]).
+  destruct (exists_last Hne) as (m & z & ->). rewrite removelast_last, last_last, app_length in *. cbn [length] in *.
+  destruct (Z.of_nat idx =? Z.of_nat (length m + 1) - 1) eqn:E; cbv zeta.
+  - apply Z.eqb_eq in E. assert (idx = length m) by lia. subst idx.
+    rewrite app_nth2 in Hn by lia. rewrite Nat.sub_diag in Hn. cbn in Hn. subst z. split; [|lia].
+    intros y Hy. rewrite existsb_app_single. replace (N.eqb y x) with false by (symmetry; apply N.eqb_neq; exact Hy).
+    rewrite orb_false_r. reflexivity.
+  - apply Z.eqb_neq in E. assert (idx < length m)%nat by lia. rewrite app_nth1 in Hn by lia. split.
+    + intros y Hy. rewrite existsb_app_single. apply set_nth_mem with (x := x); auto.
+    + rewrite set_nth_length. lia.
+Qed.
+
+Lemma revoke_no_auth_members a x r a' :
+  revoke_no_auth a x r = Ok a' ->
+  holds a x r = true /\
+  (forall y, y <> x -> existsb (N.eqb y) (mem_list a' r) = existsb (N.eqb y) (mem_list a r)) /\
+  Z.of_nat (length (mem_list a' r)) = Z.of_nat (length (mem_list a r)) - 1 /\
+  (existing a' = existing a \/ existing a' = remove_first r (existing a)).
+Proof.
+  unfold revoke_no_auth. destruct (holds a x r) eqn:Eh; [|discriminate]. intros H. split; [reflexivity|].
+  unfold remove_member in H. destruct (mem_list a r) as [|y0 l0] eqn:El; [discriminate|].
+  destruct (has_role a x r) as [idx|] eqn:Ei; [|discriminate].
+  unfold has_role in Ei. rewrite El in Ei.
+  apply index_of_spec in Ei. rewrite Z.sub_0_r in Ei. destruct Ei as [Hr Hn].
+  inversion H; subst a'. rewrite mem_list_set_members_eq. cbn [set_members existing].
+  pose proof (swap_remove_spec (y0 :: l0) x (Z.to_nat idx)) as P.
+  rewrite Z2Nat.id in P by lia. cbv zeta in P.
+  assert (Hlt : (Z.to_nat idx < length (y0 :: l0))%nat) by lia.
+  specialize (P Hlt Hn). destruct P as [P1 P2].
+  split; [exact P1|]. split; [exact P2|].
+  match goal with |- context [if ?b then _ else _] => destruct b end; auto.
+Qed.
+
 Section WithHeader.
   Variable h : header.
   Let hash := hash_of (h_tbl h).
@@ -105,7 +194,7 @@ Section WithHeader.
   Hypothesis Hroles : (3 <=? h_nroles h)%N = true.
 
   Lemma executor_in_roles : In EXECUTOR (upto (h_nroles h)).
-  Proof. apply in_upto. apply N.leb_le in Hroles. unfold EXECUTOR. lia. Qed.
+  Proof. apply In_upto_iff. apply N.leb_le in Hroles. unfold EXECUTOR. lia. Qed.
 
   Lemma ob_count_executor s : ob_count (observe s) EXECUTOR = role_count (acs s) EXECUTOR.
   Proof.
@@ -113,12 +202,21 @@ Section WithHeader.
     rewrite alist_get_map, (existsb_in _ _ executor_in_roles). reflexivity.
   Qed.
 
-  Lemma ob_has_holds s a r : holds (acs s) a r = true -> ob_has (observe s) a r = true.
+  Lemma in_upto_In n x : in_upto n x = true <-> In x (upto n).
+  Proof. unfold in_upto. rewrite andb_true_iff, !N.leb_le. symmetry. apply In_upto_iff. Qed.
+  Lemma roles123 : in_upto (h_nroles h) PROPOSER = true /\ in_upto (h_nroles h) EXECUTOR = true /\ in_upto (h_nroles h) CANCELLER = true.
+  Proof. apply N.leb_le in Hroles. unfold in_upto, PROPOSER, EXECUTOR, CANCELLER. repeat split; apply andb_true_iff; split; apply N.leb_le; lia. Qed.
+
+  Lemma ob_has_eq s a r :
+    in_upto (h_naddr h) a = true -> in_upto (h_nroles h) r = true -> ob_has (observe s) a r = holds (acs s) a r.
   Proof.
+    intros Ha Hr. apply in_upto_In in Ha. apply in_upto_In in Hr.
     unfold ob_has, ob_has_or, Run.C09.observe, observe_u; cbn [o_has]. rewrite has_get_model.
-    destruct (existsb (N.eqb a) (upto (h_naddr h)) && existsb (N.eqb r) (upto (h_nroles h))); [|reflexivity].
-    unfold holds. destruct (has_role (acs s) a r); [reflexivity|discriminate].
+    rewrite (existsb_in _ _ Ha), (existsb_in _ _ Hr). cbn [andb]. unfold holds. destruct (has_role (acs s) a r); reflexivity.
   Qed.
+  Lemma ob_has_holds s a r :
+    in_upto (h_naddr h) a = true -> in_upto (h_nroles h) r = true -> holds (acs s) a r = true -> ob_has (observe s) a r = true.
+  Proof. intros Ha Hr H. rewrite ob_has_eq by assumption. exact H. Qed.
 
   Lemma ops_get_model s i : In i (h_ids h) -> alist_get i (o_ops (observe s)) = Some (view (ctl s) i).
   Proof.
@@ -268,14 +366,18 @@ Section WithHeader.
   Qed.
 
   (* ---------------- the checks of [obs_step_ok], one by one ---------------- *)
+  Definition exec_in_universe (p : ctx * meta) : Prop :=
+    match m_exec (snd p) with Some x => in_upto (h_naddr h) x = true | None => True end.
+
   Lemma pair_ok_model direct s xa pairs :
+    (forall p, In p pairs -> exec_in_universe p) ->
     Forall (pair_good cf direct xa (acs s)) pairs -> forallb (pair_ok cf direct xa (observe s)) pairs = true.
   Proof.
-    intros Hf. apply forallb_forall. intros p Hp. rewrite Forall_forall in Hf.
+    intros Hu Hf. apply forallb_forall. intros p Hp. rewrite Forall_forall in Hf. specialize (Hu p Hp). unfold exec_in_universe in Hu.
     destruct (Hf p Hp) as (o & Ho & Hx). unfold pair_ok. rewrite Ho, ob_count_executor.
     destruct (role_count (acs s) EXECUTOR =? 0) eqn:E0; [reflexivity|]. apply Z.eqb_neq in E0.
-    destruct Hx as [Hx|(x & -> & Hh & Hs)]; [contradiction|].
-    rewrite (ob_has_holds _ _ _ Hh). cbn [andb].
+    destruct Hx as [Hx|(x & Hm & Hh & Hs)]; [contradiction|]. rewrite Hm in *.
+    rewrite (ob_has_holds _ _ _ Hu (proj1 (proj2 roles123)) Hh). cbn [andb].
     destruct Hs as [[-> ->]|[Hne Hxa]].
     - rewrite N.eqb_refl. reflexivity.
     - replace (N.eqb x (self cf)) with false by (symmetry; apply N.eqb_neq; exact Hne). exact Hxa.
@@ -285,26 +387,34 @@ Section WithHeader.
     alist_get r (o_radmin (observe s)) = if existsb (N.eqb r) (upto (h_nroles h)) then Some (role_admin (acs s) r) else None.
   Proof. unfold Run.C09.observe, observe_u; cbn [o_radmin]. apply alist_get_map. Qed.
 
-  Lemma role_ok_model s c s1 s' r : own_effect hash cf c s s1 s' r -> role_ok c (observe s) = true.
+  Notation wf := (call_wf (h_naddr h) (h_nroles h) (h_avs h)).
+  (* every role admin ever set lies inside the observed universe (calls are well-formed) *)
+  Definition radmin_wf (a : ac) : Prop := forall r ar, role_admin a r = Some ar -> in_upto (h_nroles h) ar = true.
+
+  Lemma role_ok_model s c s1 s' r :
+    wf c = true -> radmin_wf (acs s) -> own_effect hash cf c s s1 s' r -> role_ok c (observe s) = true.
   Proof.
-    intros Ho. destruct c as [o d p au|o x tgt au|j k au|d au|a ro k au|a ro k au|ro k au|ro ar au|new lu au|au|au|metas ctxs xa|n];
+    intros Hwf Hra Ho. unfold call_wf in Hwf. apply andb_true_iff in Hwf. destruct Hwf as [_ Hwf].
+    destruct roles123 as (R1 & R2 & R3).
+    assert (GR : forall a ro k, in_upto (h_naddr h) a && in_upto (h_nroles h) ro && in_upto (h_naddr h) k = true ->
+                 is_admin_or_admin_role (acs s) ro k = true ->
+                 on_eqb (o_admin (observe s)) (Some k)
+                 || match alist_get ro (o_radmin (observe s)) with Some (Some ar) => ob_has (observe s) k ar | _ => false end = true).
+    { intros a ro k Hu Hi. apply andb_true_iff in Hu. destruct Hu as [Hu Hk]. apply andb_true_iff in Hu. destruct Hu as [_ Hro].
+      unfold is_admin_or_admin_role in Hi. apply orb_true_iff in Hi. apply orb_true_iff. destruct Hi as [Hi|Hi].
+      - left. unfold Run.C09.observe, observe_u; cbn [o_admin]. destruct (admin (acs s)) as [ad|]; [|discriminate].
+        cbn [on_eqb]. rewrite N.eqb_sym. exact Hi.
+      - right. rewrite radmin_get_model. apply in_upto_In in Hro. rewrite (existsb_in _ _ Hro).
+        destruct (role_admin (acs s) ro) as [ar|] eqn:Era; [|discriminate].
+        apply ob_has_holds; [exact Hk|exact (Hra _ _ Era)|exact Hi]. }
+    destruct c as [o d p au|o x tgt au|j k au|d au|a ro k au|a ro k au|ro k au|ro ar au|new lu au|au|au|metas ctxs xa|n];
       cbn [own_effect] in Ho; cbn [role_ok]; try reflexivity.
-    - apply ob_has_holds. apply Ho.
+    - apply ob_has_holds; [exact Hwf|exact R1|apply Ho].
     - rewrite ob_count_executor. destruct (role_count (acs s) EXECUTOR =? 0) eqn:E0; [reflexivity|]. apply Z.eqb_neq in E0.
-      destruct Ho as ([H0|(e & -> & Hh)] & _); [contradiction|]. apply ob_has_holds. exact Hh.
-    - apply ob_has_holds. apply Ho.
-    - destruct Ho as (Hi & _). unfold is_admin_or_admin_role in Hi. apply orb_true_iff in Hi. apply orb_true_iff.
-      destruct Hi as [Hi|Hi].
-      + left. unfold Run.C09.observe, observe_u; cbn [o_admin]. destruct (admin (acs s)) as [ad|]; [|discriminate].
-        cbn [on_eqb]. rewrite N.eqb_sym. exact Hi.
-      + right. rewrite radmin_get_model. destruct (existsb (N.eqb ro) (upto (h_nroles h))); [|reflexivity].
-        destruct (role_admin (acs s) ro) as [ar|]; [|discriminate]. apply ob_has_holds. exact Hi.
-    - destruct Ho as (Hi & _). unfold is_admin_or_admin_role in Hi. apply orb_true_iff in Hi. apply orb_true_iff.
-      destruct Hi as [Hi|Hi].
-      + left. unfold Run.C09.observe, observe_u; cbn [o_admin]. destruct (admin (acs s)) as [ad|]; [|discriminate].
-        cbn [on_eqb]. rewrite N.eqb_sym. exact Hi.
-      + right. rewrite radmin_get_model. destruct (existsb (N.eqb ro) (upto (h_nroles h))); [|reflexivity].
-        destruct (role_admin (acs s) ro) as [ar|]; [|discriminate]. apply ob_has_holds. exact Hi.
+      destruct Ho as ([H0|(e & -> & Hh)] & _); [contradiction|]. apply ob_has_holds; [exact Hwf|exact R2|exact Hh].
+    - apply ob_has_holds; [exact Hwf|exact R3|apply Ho].
+    - apply (GR a ro k Hwf). apply Ho.
+    - apply (GR a ro k Hwf). apply Ho.
   Qed.
 
   Lemma trans_ok_refl c i ex a : trans_ok hash c i ex a a = true.
@@ -377,22 +487,64 @@ Section WithHeader.
     - apply list_eqb_map2. intros r _. cbn [fst snd]. rewrite (Hm r), N.eqb_refl. apply list_eqb_refl, N.eqb_refl.
   Qed.
 
-  Lemma roles_same_except_model ro s s' :
-    (forall r, r <> ro -> mem_list (acs s') r = mem_list (acs s) r) ->
-    roles_same_except ro (observe s) (observe s') = true.
+  Lemma set_same_except_model (a : N) (l l' : list N) :
+    (forall y, y <> a -> existsb (N.eqb y) l' = existsb (N.eqb y) l) -> set_same_except a l l' = true.
   Proof.
-    intros Hm. unfold roles_same_except, Run.C09.observe, observe_u; cbn [o_has o_cnt o_mem].
-    repeat (apply andb_true_iff; split).
-    - apply list_eqb_flat_map. intros r _. apply list_eqb_map2. intros a _. cbn [fst snd].
-      destruct (N.eq_dec r ro) as [->|Hr].
-      + rewrite !N.eqb_refl. apply orb_true_r.
-      + rewrite (has_role_ext _ _ a r (Hm r Hr)), has_eqb_refl. reflexivity.
-    - apply list_eqb_map2. intros r _. cbn [fst snd]. rewrite N.eqb_refl. cbn [andb].
-      destruct (N.eq_dec r ro) as [->|Hr]; [rewrite N.eqb_refl; apply orb_true_r|].
-      rewrite (role_count_ext _ _ r (Hm r Hr)), Z.eqb_refl. reflexivity.
-    - apply list_eqb_map2. intros r _. cbn [fst snd]. rewrite N.eqb_refl. cbn [andb].
-      destruct (N.eq_dec r ro) as [->|Hr]; [rewrite N.eqb_refl; apply orb_true_r|].
-      rewrite (Hm r Hr), (list_eqb_refl N.eqb) by apply N.eqb_refl. reflexivity.
+    intros H. unfold set_same_except. apply andb_true_iff. split; apply forallb_forall; intros x Hx;
+      destruct (N.eqb x a) eqn:E; cbn [orb]; try reflexivity; apply N.eqb_neq in E; unfold mem_n.
+    - rewrite (H x E). apply existsb_in. exact Hx.
+    - rewrite <- (H x E). apply existsb_in. exact Hx.
+  Qed.
+
+  Lemma roles_changed_only_at_model ro a delta s s' :
+    (forall r, r <> ro -> mem_list (acs s') r = mem_list (acs s) r) ->
+    (forall y, y <> a -> existsb (N.eqb y) (mem_list (acs s') ro) = existsb (N.eqb y) (mem_list (acs s) ro)) ->
+    role_count (acs s') ro = role_count (acs s) ro + delta ->
+    (forall r, r <> ro -> existsb (N.eqb r) (existing (acs s')) = existsb (N.eqb r) (existing (acs s))) ->
+    roles_changed_only_at ro a delta (observe s) (observe s') = true.
+  Proof.
+    intros Hm Hy Hc He. unfold roles_changed_only_at, Run.C09.observe, observe_u; cbn [o_has o_cnt o_mem o_existing].
+    apply andb_true_iff; split; [apply andb_true_iff; split; [apply andb_true_iff; split|]|].
+    - apply list_eqb_flat_map. intros r _. apply list_eqb_map2. intros x _. unfold has_same_except. cbn [fst snd].
+      rewrite !N.eqb_refl. cbn [andb]. destruct (N.eqb r ro) eqn:Er.
+      + apply N.eqb_eq in Er. subst r. destruct (N.eqb x a) eqn:Ex; [reflexivity|]. apply N.eqb_neq in Ex. cbn [orb].
+        unfold held, has_role. rewrite !held_index_of, (Hy x Ex). apply bool_eqb_refl.
+      + apply N.eqb_neq in Er. rewrite (has_role_ext _ _ x r (Hm r Er)). apply oz_eqb_refl.
+    - apply list_eqb_map2. intros r _. cbn [fst snd]. rewrite N.eqb_refl. cbn [andb]. destruct (N.eqb r ro) eqn:Er.
+      + apply N.eqb_eq in Er. subst r. rewrite Hc. apply Z.eqb_refl.
+      + apply N.eqb_neq in Er. rewrite (role_count_ext _ _ r (Hm r Er)). apply Z.eqb_refl.
+    - apply list_eqb_map2. intros r _. cbn [fst snd]. rewrite N.eqb_refl. cbn [andb]. destruct (N.eqb r ro) eqn:Er.
+      + apply N.eqb_eq in Er. subst r. apply set_same_except_model. exact Hy.
+      + apply N.eqb_neq in Er. rewrite (Hm r Er). apply list_eqb_refl, N.eqb_refl.
+    - apply set_same_except_model. exact He.
+  Qed.
+
+  (* grant / revoke / renounce in those terms *)
+  Lemma grant_changes s s1 a' x ro :
+    acs s1 = acs s -> grant_no_auth (max_roles cf) (acs s) x ro = Ok a' ->
+    roles_changed_only_at ro x (if holds (acs s) x ro then 0 else 1) (observe s) (observe (with_acs s1 a')) = true.
+  Proof.
+    intros Ha Hg. pose proof (grant_no_auth_frame _ _ _ _ _ Hg) as (_ & _ & _ & G4 & _).
+    apply grant_no_auth_members in Hg. apply roles_changed_only_at_model; cbn [with_acs acs].
+    - exact G4.
+    - intros y Hy. destruct Hg as [[_ ->]|(_ & -> & _)]; [reflexivity|].
+      rewrite existsb_app_single. replace (N.eqb y x) with false by (symmetry; apply N.eqb_neq; exact Hy). apply orb_false_r.
+    - destruct Hg as [[-> ->]|(-> & Hl & _)]; [lia|]. unfold role_count. rewrite Hl, app_length. cbn [length]. lia.
+    - intros r Hr. destruct Hg as [[_ ->]|(_ & _ & [-> | ->])]; try reflexivity.
+      rewrite existsb_app_single. replace (N.eqb r ro) with false by (symmetry; apply N.eqb_neq; exact Hr). apply orb_false_r.
+  Qed.
+
+  Lemma revoke_changes s s1 a' x ro :
+    acs s1 = acs s -> revoke_no_auth (acs s) x ro = Ok a' ->
+    roles_changed_only_at ro x (-1) (observe s) (observe (with_acs s1 a')) = true.
+  Proof.
+    intros Ha Hg. pose proof (revoke_no_auth_frame _ _ _ _ Hg) as (_ & _ & _ & G4 & _).
+    apply revoke_no_auth_members in Hg. destruct Hg as (_ & Hy & Hc & He).
+    apply roles_changed_only_at_model; cbn [with_acs acs].
+    - exact G4.
+    - exact Hy.
+    - unfold role_count. lia.
+    - intros r Hr. destruct He as [-> | ->]; [reflexivity|]. apply remove_first_mem. exact Hr.
   Qed.
 
   Lemma radmin_same_model s s' : radmin (acs s') = radmin (acs s) -> radmin_same (observe s) (observe s') = true.
@@ -419,11 +571,12 @@ Section WithHeader.
   Proof. intros H. apply radmin_same_model. rewrite H. reflexivity. Qed.
 
   Lemma effects_ok_model s c s' r pairs s1 g :
+    wf c = true ->
     ginv (ctl s) g ->
     consumed hash cf (is_direct c) s (a_exec (authz_of c)) pairs s1 -> own_effect hash cf c s s1 s' r ->
     effects_ok c (observe s) (observe s') = true.
   Proof.
-    intros Hg Hc Ho.
+    intros Hwf Hg Hc Ho. unfold call_wf in Hwf. apply andb_true_iff in Hwf. destruct Hwf as [_ Hwf].
     destruct (ledger_transition s c s' r pairs s1 g 0%N Hg Hc Ho) as (_ & _ & Hnow).
     pose proof Hc as (Hacs1 & Hcr1 & _ & _). destruct (consumed_marks _ _ _ _ _ Hc) as (_ & Hmin1 & _ & _).
     unfold effects_ok.
@@ -465,27 +618,33 @@ Section WithHeader.
       + apply radmin_same_acs. cbn. first [exact Hacs1|reflexivity].
       + apply (runs_model _ _ (fun _ => 0)). apply crun_count_ext. exact Hcr1.
     - (* grant *)
-      destruct Ho as (_ & a' & Hgr & -> & _). apply grant_no_auth_frame in Hgr. destruct Hgr as (G1 & G2 & G3 & G4 & G5).
+      destruct Ho as (_ & a' & Hgr & -> & _). pose proof (grant_changes s s1 a' a ro Hacs1 Hgr) as RC.
+      apply grant_no_auth_frame in Hgr. destruct Hgr as (G1 & G2 & G3 & G4 & G5).
+      apply andb_true_iff in Hwf. destruct Hwf as [Hwf Hk]. apply andb_true_iff in Hwf. destruct Hwf as [Hwa Hwr].
       cbn [with_acs ctl acs] in *. rewrite Hnow, Z.eqb_refl, Hmin1, oz_eqb_refl, G1, on_eqb_refl. cbn [andb].
       apply andb_true_iff; split; [apply andb_true_iff; split; [apply andb_true_iff; split|]|].
-      + apply roles_same_except_model. intros r0 Hr0. cbn [acs]. apply G4. exact Hr0.
-      + apply (ob_has_holds (with_acs s1 a')). exact G5.
+      + rewrite (ob_has_eq s a ro Hwa Hwr). exact RC.
+      + apply (ob_has_holds (with_acs s1 a')); [exact Hwa|exact Hwr|exact G5].
       + apply radmin_same_model. cbn [acs]. exact G3.
       + apply (runs_model _ _ (fun _ => 0)). apply crun_count_ext. exact Hcr1.
     - (* revoke *)
-      destruct Ho as (_ & a' & Hgr & -> & _). apply revoke_no_auth_frame in Hgr. destruct Hgr as (G1 & G2 & G3 & G4 & G5).
+      destruct Ho as (_ & a' & Hgr & -> & _). pose proof (revoke_changes s s1 a' a ro Hacs1 Hgr) as RC.
+      apply revoke_no_auth_frame in Hgr. destruct Hgr as (G1 & G2 & G3 & G4 & G5).
+      apply andb_true_iff in Hwf. destruct Hwf as [Hwf Hk]. apply andb_true_iff in Hwf. destruct Hwf as [Hwa Hwr].
       cbn [with_acs ctl acs] in *. rewrite Hnow, Z.eqb_refl, Hmin1, oz_eqb_refl, G1, on_eqb_refl. cbn [andb].
       apply andb_true_iff; split; [apply andb_true_iff; split; [apply andb_true_iff; split|]|].
-      + apply roles_same_except_model. intros r0 Hr0. cbn [acs]. apply G4. exact Hr0.
-      + apply ob_has_holds. exact G5.
+      + exact RC.
+      + apply ob_has_holds; [exact Hwa|exact Hwr|exact G5].
       + apply radmin_same_model. cbn [acs]. exact G3.
       + apply (runs_model _ _ (fun _ => 0)). apply crun_count_ext. exact Hcr1.
     - (* renounce role *)
-      destruct Ho as (a' & Hgr & -> & _). apply revoke_no_auth_frame in Hgr. destruct Hgr as (G1 & G2 & G3 & G4 & G5).
+      destruct Ho as (a' & Hgr & -> & _). pose proof (revoke_changes s s1 a' k ro Hacs1 Hgr) as RC.
+      apply revoke_no_auth_frame in Hgr. destruct Hgr as (G1 & G2 & G3 & G4 & G5).
+      apply andb_true_iff in Hwf. destruct Hwf as [Hwr Hwk].
       cbn [with_acs ctl acs] in *. rewrite Hnow, Z.eqb_refl, Hmin1, oz_eqb_refl, G1, on_eqb_refl. cbn [andb].
       apply andb_true_iff; split; [apply andb_true_iff; split; [apply andb_true_iff; split|]|].
-      + apply roles_same_except_model. intros r0 Hr0. cbn [acs]. apply G4. exact Hr0.
-      + apply ob_has_holds. exact G5.
+      + exact RC.
+      + apply ob_has_holds; [exact Hwk|exact Hwr|exact G5].
       + apply radmin_same_model. cbn [acs]. exact G3.
       + apply (runs_model _ _ (fun _ => 0)). apply crun_count_ext. exact Hcr1.
     - (* set_role_admin *)
@@ -536,35 +695,140 @@ Section WithHeader.
     same_keys (map (fun i => (i, f i)) l) (map (fun i => (i, g i)) l) = true.
   Proof. unfold same_keys. rewrite !map_map. cbn [fst]. apply list_eqb_refl. apply N.eqb_refl. Qed.
 
-  Lemma obs_step_ok_fail s c g :
-    ginv (ctl s) g -> obs_step_ok hash aid cf (observe s) (c, (Fail : outcome), observe s) = Some [].
+  Notation OSO := (obs_step_ok hash aid cf (h_ids h) (h_naddr h) (h_nroles h) (h_tags h) (h_avs h)).
+  Notation MF := (mon_from hash aid cf (h_ids h) (h_naddr h) (h_nroles h) (h_tags h) (h_avs h)).
+
+  Lemma map_flat_map {A B C} (f : B -> C) (g : A -> list B) l : map f (flat_map g l) = flat_map (fun x => map f (g x)) l.
+  Proof. induction l as [|x l IH]; cbn [flat_map map]; [reflexivity|]. rewrite map_app, IH. reflexivity. Qed.
+
+  Lemma pair_eqb_refl x : pair_eqb x x = true.
+  Proof. unfold pair_eqb. rewrite !N.eqb_refl. reflexivity. Qed.
+
+  Lemma obs_shape_model s : obs_shape (h_ids h) (h_naddr h) (h_nroles h) (h_tags h) (observe s) = true.
   Proof.
-    intros Hg. unfold obs_step_ok. rewrite (obs_coherent_model s g Hg). cbn [negb]. rewrite obs_eqb_refl. reflexivity.
+    unfold obs_shape, Run.C09.observe, observe_u; cbn [o_ops o_has o_cnt o_mem o_radmin o_runs].
+    rewrite !map_map; cbn [fst]. rewrite !map_id. rewrite map_flat_map.
+    rewrite !(list_eqb_refl N.eqb) by apply N.eqb_refl. rewrite !andb_true_r. cbn [andb].
+    apply list_eqb_flat_map. intros r _. rewrite map_map. cbn [fst]. apply list_eqb_refl. apply pair_eqb_refl.
+  Qed.
+
+  Lemma in_combine_snd {A B} (l1 : list A) (l2 : list B) p : In p (combine l1 l2) -> In (snd p) l2.
+  Proof. destruct p as [x y]. apply in_combine_r. Qed.
+
+  Lemma pairs_wf c adm n adm' pairs :
+    wf c = true -> pairs_of aid cf adm n adm' c = Some pairs -> forall p, In p pairs -> exec_in_universe p.
+  Proof.
+    intros Hwf Hp p Hin. unfold call_wf in Hwf. apply andb_true_iff in Hwf. destruct Hwf as [Haz Hwf].
+    assert (M : forall ms l1, metas_wf (h_naddr h) ms = true -> In p (combine l1 ms) -> exec_in_universe p).
+    { intros ms l1 Hm Hi. apply in_combine_snd in Hi. unfold metas_wf in Hm. rewrite forallb_forall in Hm.
+      specialize (Hm _ Hi). unfold exec_in_universe. destruct (m_exec (snd p)); [exact Hm|exact I]. }
+    assert (G : forall a, (if N.eqb a (self cf) then
+                  match a_self (authz_of c) with
+                  | Some se => if ctx_eqb (se_root se) (root_of aid cf c) && Nat.eqb (length (se_metas se)) (length (se_root se :: se_subs se))
+                               then Some (combine (se_root se :: se_subs se) (se_metas se)) else None
+                  | None => None end
+                else if has_auth (a_plain (authz_of c)) a then Some [] else None) = Some pairs -> exec_in_universe p).
+    { intros a Hx. unfold authz_wf in Haz. destruct (N.eqb a (self cf)).
+      - destruct (a_self (authz_of c)) as [se|]; [|discriminate]. apply andb_true_iff in Haz. destruct Haz as [Hm _].
+        destruct (_ && _); [|discriminate].
+        assert (Epairs : pairs = combine (se_root se :: se_subs se) (se_metas se)) by congruence.
+        rewrite Epairs in Hin. exact (M _ _ Hm Hin).
+      - destruct (has_auth _ a); [|discriminate]. inversion Hx; subst pairs. destruct Hin. }
+    unfold TimelockController.pairs_of in Hp.
+    destruct c; cbn [TimelockController.auth_demand] in Hp;
+      try (destruct (n =? 0); [inversion Hp; subst pairs; destruct Hin|]);
+      try (destruct adm as [ad|]; [|discriminate]); try (destruct adm' as [ad'|]; [|discriminate]);
+      try (eapply G; exact Hp).
+    - destruct executor as [e|]; [|discriminate]. eapply G; exact Hp.
+    - destruct (Nat.eqb (length metas) (length ctxs)); [|discriminate]. inversion Hp; subst pairs. exact (M _ _ Hwf Hin).
+    - inversion Hp; subst pairs. destruct Hin.
+  Qed.
+
+  (* the ghost of the pending offer follows the model's pending entry *)
+  Lemma pending_after_model s c s' r :
+    step_ok s c = Ok (s', r) -> pending (acs s') = pend_after cf (pending (acs s)) (now (ctl s)) c.
+  Proof.
+    intros H. destruct (step_spec hash aid cf _ _ _ _ H) as (pairs & s1 & _ & (Ha & _) & Ho).
+    destruct c; cbn [own_effect] in Ho; cbn [pend_after].
+    - destruct Ho as (_ & t & _ & -> & _). cbn. rewrite Ha. reflexivity.
+    - destruct Ho as (_ & t & _ & _ & _ & -> & _). cbn. rewrite Ha. reflexivity.
+    - destruct Ho as (_ & t & _ & -> & _). cbn. rewrite Ha. reflexivity.
+    - destruct Ho as (_ & -> & _). cbn. rewrite Ha. reflexivity.
+    - destruct Ho as (_ & a' & Hg & -> & _). apply grant_no_auth_frame in Hg. cbn. apply Hg.
+    - destruct Ho as (_ & a' & Hg & -> & _). apply revoke_no_auth_frame in Hg. cbn. apply Hg.
+    - destruct Ho as (a' & Hg & -> & _). apply revoke_no_auth_frame in Hg. cbn. apply Hg.
+    - destruct Ho as (-> & _). reflexivity.
+    - destruct Ho as (p & Ht & -> & _). cbn. fold cf. rewrite Ht. reflexivity.
+    - destruct Ho as (pa & _ & -> & _). reflexivity.
+    - destruct Ho as (_ & -> & _). reflexivity.
+    - destruct Ho as (-> & _). rewrite Ha. reflexivity.
+    - destruct Ho as (_ & _ & -> & _). cbn. rewrite Ha. reflexivity.
+  Qed.
+
+  Lemma radmin_wf_step s c s' r : wf c = true -> step_ok s c = Ok (s', r) -> radmin_wf (acs s) -> radmin_wf (acs s').
+  Proof.
+    intros Hwf H Hra. unfold call_wf in Hwf. apply andb_true_iff in Hwf. destruct Hwf as [_ Hwf].
+    destruct (step_spec hash aid cf _ _ _ _ H) as (pairs & s1 & _ & (Ha & _) & Ho).
+    assert (K : radmin (acs s') = radmin (acs s) -> radmin_wf (acs s')).
+    { intros E rr aa. unfold role_admin. rewrite E. apply Hra. }
+    destruct c as [o d p au|o x tgt au|j k au|d au|a ro k au|a ro k au|ro k au|ro ar au|new lu au|au|au|metas ctxs xa|n]; cbn [own_effect] in Ho.
+    - destruct Ho as (_ & t & _ & -> & _). apply K. cbn. rewrite Ha. reflexivity.
+    - destruct Ho as (_ & t & _ & _ & _ & -> & _). apply K. cbn. rewrite Ha. reflexivity.
+    - destruct Ho as (_ & t & _ & -> & _). apply K. cbn. rewrite Ha. reflexivity.
+    - destruct Ho as (_ & -> & _). apply K. cbn. rewrite Ha. reflexivity.
+    - destruct Ho as (_ & a' & Hg & -> & _). apply grant_no_auth_frame in Hg. apply K. cbn. apply Hg.
+    - destruct Ho as (_ & a' & Hg & -> & _). apply revoke_no_auth_frame in Hg. apply K. cbn. apply Hg.
+    - destruct Ho as (a' & Hg & -> & _). apply revoke_no_auth_frame in Hg. apply K. cbn. apply Hg.
+    - destruct Ho as (-> & _). intros rr aa. unfold role_admin. cbn [with_acs acs radmin].
+      apply andb_true_iff in Hwf. destruct Hwf as [_ Har].
+      destruct (N.eq_dec rr ro) as [->|Hn].
+      + rewrite alist_get_set_eq. intros E. inversion E; subst. exact Har.
+      + rewrite alist_get_set_neq by exact Hn. apply Hra.
+    - destruct Ho as (p & _ & -> & _). apply K. reflexivity.
+    - destruct Ho as (pa & _ & -> & _). apply K. reflexivity.
+    - destruct Ho as (_ & -> & _). apply K. reflexivity.
+    - destruct Ho as (-> & _). apply K. rewrite Ha. reflexivity.
+    - destruct Ho as (_ & _ & -> & _). apply K. cbn. rewrite Ha. reflexivity.
+  Qed.
+
+  Lemma obs_step_ok_fail s c g :
+    wf c = true -> ginv (ctl s) g -> OSO (pending (acs s)) (observe s) (c, (Fail : outcome), observe s) = Some [].
+  Proof.
+    intros Hwf Hg. unfold obs_step_ok. rewrite (obs_coherent_model s g Hg), obs_shape_model, Hwf. cbn [negb andb].
+    rewrite obs_eqb_refl. reflexivity.
   Qed.
 
   Lemma obs_step_ok_ok s c s' r g :
+    wf c = true -> radmin_wf (acs s) ->
     ginv (ctl s) g -> step_ok s c = Ok (s', r) ->
     exists pairs g',
-      obs_step_ok hash aid cf (observe s) (c, (Ok r : outcome), observe s') = Some (tl_calls cf c pairs) /\
+      OSO (pending (acs s)) (observe s) (c, (Ok r : outcome), observe s') = Some (tl_calls cf c pairs) /\
       gfeed hash g (now (ctl s)) (min_delay (ctl s)) (tl_calls cf c pairs) = Some g' /\ ginv (ctl s') g'.
   Proof.
-    intros Hg H.
+    intros Hwf Hra Hg H.
     destruct (step_spec hash aid cf _ _ _ _ H) as (pairs & s1 & Hp & Hc & Ho).
     destruct (cstep_ghost hash aid cf _ _ _ _ _ Hg H) as (pairs' & g' & Hp' & Hf & Hg').
     rewrite Hp in Hp'. injection Hp' as <-.
     exists pairs, g'. split; [|split; assumption].
-    unfold obs_step_ok. rewrite (obs_coherent_model s' g' Hg'). cbn [negb].
+    unfold obs_step_ok. rewrite (obs_coherent_model s' g' Hg'), obs_shape_model, Hwf. cbn [negb andb].
     change (o_admin (observe s)) with (admin (acs s)). change (o_admin (observe s')) with (admin (acs s')).
     rewrite ob_count_executor, Hp.
     pose proof Hc as (_ & _ & Hgood & _).
-    rewrite (pair_ok_model _ s _ _ Hgood), (role_ok_model s c s1 s' r Ho). cbn [andb].
+    rewrite (pair_ok_model _ s _ _ (pairs_wf c _ _ _ _ Hwf Hp) Hgood), (role_ok_model s c s1 s' r Hwf Hra Ho). cbn [andb].
     replace (same_keys (o_ops (observe s)) (o_ops (observe s'))) with true
       by (symmetry; unfold Run.C09.observe, observe_u; cbn [o_ops]; apply same_keys_map).
     cbn [andb].
     replace (forallb _ (o_ops (observe s'))) with true.
     2:{ symmetry. unfold Run.C09.observe at 2, observe_u; cbn [o_ops]. rewrite forallb_map. apply forallb_forall.
         intros i Hi. apply (op_step_ok_model s c s' r pairs s1 g i Hg Hc Ho Hi). }
-    rewrite (effects_ok_model s c s' r pairs s1 g Hg Hc Ho). cbn [andb].
+    rewrite (effects_ok_model s c s' r pairs s1 g Hwf Hg Hc Ho). cbn [andb].
+    replace (match c with
+             | AcceptAdmin _ => match tget (o_now (observe s)) (pending (acs s)) with
+                                | Some pa => on_eqb (admin (acs s')) (Some pa) | None => false end
+             | _ => true end) with true.
+    2:{ symmetry. destruct c; try reflexivity. cbn [own_effect] in Ho. destruct Ho as (pa & Hpa & -> & _).
+        change (o_now (observe s)) with (now (ctl s)). rewrite Hpa. cbn [with_acs acs admin]. apply on_eqb_refl. }
+    cbn [andb].
     replace (match c with
              | ScheduleOp o d _ _ => on_eqb r (Some (hash o)) && match o_min (observe s) with Some m => m <=? d | None => false end
              | _ => on_eqb r None
@@ -594,16 +858,18 @@ Section WithHeader.
   Proof. reflexivity. Qed.
 
   Lemma mon_from_model cs : forall s g k,
-    ginv (ctl s) g ->
-    mon_from hash aid cf (MS (observe s) g) (model_events h s cs) k = 0%N.
+    forallb wf cs = true -> radmin_wf (acs s) -> ginv (ctl s) g ->
+    MF (MS (observe s) g (pending (acs s))) (model_events h s cs) k = 0%N.
   Proof.
-    induction cs as [|c cs IH]; intros s g k Hg; cbn [model_events mon_from]; [reflexivity|].
+    induction cs as [|c cs IH]; intros s g k Hall Hra Hg; cbn [model_events mon_from]; [reflexivity|].
+    cbn [forallb] in Hall. apply andb_true_iff in Hall. destruct Hall as [Hwf Hall].
     fold hash aid cf. rewrite step_unfold.
-    destruct (step_ok s c) as [[s' r]|] eqn:E; cbn [mon_from]; unfold mon_step; cbn [m_prev m_ghost snd].
-    - destruct (obs_step_ok_ok s c s' r g Hg E) as (pairs & g' & Hobs & Hf & Hg').
+    destruct (step_ok s c) as [[s' r]|] eqn:E; cbn [mon_from]; unfold mon_step; cbn [m_prev m_ghost m_pend snd fst].
+    - destruct (obs_step_ok_ok s c s' r g Hwf Hra Hg E) as (pairs & g' & Hobs & Hf & Hg').
       rewrite Hobs. change (o_now (observe s)) with (now (ctl s)). change (o_min (observe s)) with (min_delay (ctl s)).
-      rewrite Hf. apply IH. exact Hg'.
-    - rewrite (obs_step_ok_fail s c g Hg). cbn [gfeed]. apply IH. exact Hg.
+      rewrite Hf. cbn [is_ok]. rewrite <- (pending_after_model s c s' r E).
+      apply IH; [exact Hall|exact (radmin_wf_step s c s' r Hwf E Hra)|exact Hg'].
+    - rewrite (obs_step_ok_fail s c g Hwf Hg). cbn [gfeed is_ok]. apply IH; assumption.
   Qed.
 
   Lemma diff_from_model cs : forall s k, diff_from h s (model_events h s cs) k = 0%N.
@@ -614,36 +880,76 @@ Section WithHeader.
   Qed.
 End WithHeader.
 
+(* the constructor leaves admin as given, no pending offer and no role admins *)
+Lemma grant_row_frame cf x rs : forall a a1,
+  (fix go (a : ac) (rs : list role) : res ac :=
+     match rs with [] => Ok a | r :: rt => do a' <- grant_no_auth (max_roles cf) a x r; go a' rt end) a rs = Ok a1 ->
+  admin a1 = admin a /\ pending a1 = pending a /\ radmin a1 = radmin a.
+Proof.
+  induction rs as [|r rs IHr]; intros a a1 E.
+  - inversion E. auto.
+  - destruct (grant_no_auth (max_roles cf) a x r) as [a2|] eqn:G; cbn [bind] in E; [|discriminate].
+    apply grant_no_auth_frame in G. destruct G as (G1 & G2 & G3 & _).
+    destruct (IHr _ _ E) as (I1 & I2 & I3). rewrite I1, I2, I3. auto.
+Qed.
+Lemma grant_all_frame cf l rs : forall a a', grant_all cf a l rs = Ok a' ->
+  admin a' = admin a /\ pending a' = pending a /\ radmin a' = radmin a.
+Proof.
+  induction l as [|x l IH]; intros a a' H; cbn [grant_all] in H.
+  - inversion H. auto.
+  - match type of H with context [bind ?e _] => destruct e as [a1|] eqn:E end; cbn [bind] in H; [|discriminate].
+    apply grant_row_frame in E. destruct E as (F1 & F2 & F3).
+    destruct (IH _ _ H) as (I1 & I2 & I3). rewrite I1, I2, I3. auto.
+Qed.
+
+Lemma construct_frame cf n0 md props execs adm s0 :
+  construct cf n0 md props execs adm = Ok s0 ->
+  admin (acs s0) = Some (match adm with Some a => a | None => self cf end) /\ pending (acs s0) = None /\
+  radmin (acs s0) = [] /\ min_delay (ctl s0) = Some md /\ now (ctl s0) = n0 /\ marks (ctl s0) = [] /\ cruns s0 = [].
+Proof.
+  unfold construct. intros H.
+  destruct (grant_all cf _ props _) as [a1|] eqn:E1; cbn [bind] in H; [|discriminate].
+  destruct (grant_all cf a1 execs _) as [a2|] eqn:E2; cbn [bind] in H; [|discriminate].
+  unfold set_min_delay in H. destruct (in_u32 md); cbn [guard bind] in H; [|discriminate].
+  inversion H; subst s0. cbn [acs ctl cruns now min_delay marks init_tl].
+  apply grant_all_frame in E1. apply grant_all_frame in E2. destruct E1 as (A1 & A2 & A3). destruct E2 as (B1 & B2 & B3).
+  rewrite B1, B2, B3, A1, A2, A3. cbn. repeat split; reflexivity.
+Qed.
+
 Theorem check_accepts_model : forall cf n0 md props execs adm ids naddr nroles tags tbl avs s0 cs,
-  2 <= n0 <= MAXU32 -> tbl_ok tbl = true -> avs_ok avs = true -> (3 <=? nroles)%N = true ->
+  2 <= n0 <= MAXU32 -> tbl_ok tbl = true -> avs_ok avs = true -> tbl_in ids tbl = true -> (3 <=? nroles)%N = true ->
+  forallb (call_wf naddr nroles avs) cs = true ->
   construct cf n0 md props execs adm = Ok s0 ->
   check (model_trace cf n0 md props execs adm ids naddr nroles tags tbl avs s0 cs) = (0%N, 0%N, 0%N).
 Proof.
-  intros cf n0 md props execs adm ids naddr nroles tags tbl avs s0 cs Hn Htbl Havs Hroles Hc.
+  intros cf n0 md props execs adm ids naddr nroles tags tbl avs s0 cs Hn Htbl Havs Hin Hroles Hwf Hc.
   unfold check, model_trace.
   set (h := model_header cf n0 md props execs adm ids naddr nroles tags tbl avs s0).
   assert (Hg0 : ginv (ctl s0) []) by (apply (construct_ginv cf n0 md props execs adm); assumption).
-  assert (Hobs0 : h_obs0 h = observe h s0) by reflexivity.
+  destruct (construct_frame _ _ _ _ _ _ _ Hc) as (F1 & F2 & F3 & F4 & F5 & F6 & F7).
   assert (D : diff (h, model_events h s0 cs) = 0%N).
   { unfold diff, diff_events, init_state. cbn [fst snd]. subst h. cbn [model_header h_cfg h_now h_min h_props h_execs h_admin h_unset h_done h_obs0].
     rewrite Hc, !Z.eqb_refl. cbn [andb].
     change (observe_u ids naddr nroles tags s0) with (observe (model_header cf n0 md props execs adm ids naddr nroles tags tbl avs s0) s0).
     rewrite obs_eqb_refl. apply diff_from_model. }
   assert (M : monitor (h, model_events h s0 cs) = 0%N).
-  { unfold monitor. subst h. cbn [model_header h_tbl h_avs h_nroles]. rewrite Htbl, Havs, Hroles.
+  { unfold monitor. subst h. cbn [model_header h_tbl h_avs h_nroles h_ids]. rewrite Htbl, Havs, Hin, Hroles.
     assert (O : obs0_ok (model_header cf n0 md props execs adm ids naddr nroles tags tbl avs s0) = true).
-    { unfold obs0_ok. cbn [model_header h_obs0 h_now].
+    { unfold obs0_ok. cbn [model_header h_obs0 h_now h_ids h_naddr h_nroles h_tags h_min h_admin h_cfg].
       change (observe_u ids naddr nroles tags s0) with (observe (model_header cf n0 md props execs adm ids naddr nroles tags tbl avs s0) s0).
       rewrite (obs_coherent_model _ s0 [] Hg0).
-      unfold observe, observe_u; cbn [o_now o_ops o_runs model_header h_ids h_tags].
-      unfold construct in Hc.
-      destruct (grant_all cf _ props _) as [a1|]; cbn [bind] in Hc; [|discriminate].
-      destruct (grant_all cf a1 execs _) as [a2|]; cbn [bind] in Hc; [|discriminate].
-      unfold set_min_delay in Hc. destruct (in_u32 md); cbn [guard bind] in Hc; [|discriminate].
-      inversion Hc; subst s0. cbn [ctl now cruns init_tl]. rewrite Z.eqb_refl. cbn [andb].
-      rewrite !forallb_map. apply andb_true_iff. split; apply forallb_forall; intros x _; reflexivity. }
-    rewrite O. cbn [andb model_header h_cfg h_obs0].
+      pose proof (obs_shape_model (model_header cf n0 md props execs adm ids naddr nroles tags tbl avs s0) s0) as SH.
+      cbn [model_header h_ids h_naddr h_nroles h_tags] in SH. rewrite SH.
+      unfold observe, observe_u; cbn [o_now o_min o_admin o_radmin o_ops o_runs model_header h_ids h_tags h_naddr h_nroles].
+      rewrite F1, F4, F5, Z.eqb_refl, oz_eqb_refl, on_eqb_refl. cbn [andb].
+      rewrite !forallb_map. apply andb_true_iff. split; [apply andb_true_iff; split|]; apply forallb_forall; intros x _; cbn [snd].
+      - unfold role_admin. rewrite F3. reflexivity.
+      - unfold view, mark. cbn [v_ledger]. rewrite F6. reflexivity.
+      - unfold crun_count. rewrite F7. reflexivity. }
+    rewrite O. cbn [andb model_header h_cfg h_obs0 h_ids h_naddr h_nroles h_tags h_avs].
     change (observe_u ids naddr nroles tags s0) with (observe (model_header cf n0 md props execs adm ids naddr nroles tags tbl avs s0) s0).
-    apply (mon_from_model (model_header cf n0 md props execs adm ids naddr nroles tags tbl avs s0) Hroles cs s0 [] 0%N Hg0). }
+    rewrite <- F2.
+    apply (mon_from_model (model_header cf n0 md props execs adm ids naddr nroles tags tbl avs s0) Hroles cs s0 [] 0%N Hwf); [|exact Hg0].
+    intros r ar. unfold role_admin. rewrite F3. discriminate. }
   rewrite D, M. reflexivity.
 Qed.
